@@ -848,10 +848,18 @@ def canon(expr, params=(), rename=None):
             return ('bin', type(e.op).__name__, c(e.left), c(e.right))
         if isinstance(e, ast.Call):
             fn = dotted(e.func)
+            if fn and (fn.split('.')[0] in rename or fn.split('.')[0] in params) and fn.split('.')[0] != 'self':
+                fn = None           # method call on a local / parameter: the receiver is a term, not a name
             fnc = ('fn', fn) if fn else c(e.func)
-            args = [c(a) for a in e.args]
+            eargs = e.args
+            if fn and fn in ('min', 'max', 'np.min', 'np.max', 'np.amin', 'np.amax') and len(eargs) == 1 and not e.keywords \
+                    and isinstance(eargs[0], (ast.List, ast.Tuple)):
+                eargs = eargs[0].elts      # min([a, b]) == min(a, b)
+                fnc = ('fn', fn.split('.')[-1].replace('amin', 'min').replace('amax', 'max'))
+                fn = fnc[1]
+            args = [c(a) for a in eargs]
             kws = tuple(sorted((k.arg or '**', c(k.value)) for k in e.keywords))
-            if fn in COMMUTATIVE_CALLS and not kws:
+            if fn and fn in COMMUTATIVE_CALLS and not kws:
                 args = sorted(args, key=repr)
             return ('call', fnc, tuple(args), kws)
         if isinstance(e, ast.Attribute):
@@ -873,6 +881,22 @@ def canon(expr, params=(), rename=None):
             return ('ifexp', c(e.test), c(e.body), c(e.orelse))
         if isinstance(e, ast.Starred):
             return ('star', c(e.value))
+        if isinstance(e, (ast.ListComp, ast.SetComp, ast.GeneratorExp)):
+            gens = tuple(('gen', c(g.target), c(g.iter), tuple(c(i) for i in g.ifs)) for g in e.generators)
+            return ('comp', 'set' if isinstance(e, ast.SetComp) else 'seq', c(e.elt)) + gens
+        if isinstance(e, ast.DictComp):
+            gens = tuple(('gen', c(g.target), c(g.iter), tuple(c(i) for i in g.ifs)) for g in e.generators)
+            return ('comp', 'dict', c(e.key), c(e.value)) + gens
+        if isinstance(e, ast.Lambda):
+            return ('lambda', tuple(a.arg for a in e.args.args), c(e.body))
+        if isinstance(e, ast.Dict):
+            return ('dict',) + tuple(sorted(((c(k) if k is not None else None, c(v)) for k, v in zip(e.keys, e.values)), key=repr))
+        if isinstance(e, ast.Set):
+            return ('set',) + tuple(sorted((c(x) for x in e.elts), key=repr))
+        if isinstance(e, ast.JoinedStr):
+            return ('fstr',) + tuple(c(v) for v in e.values)
+        if isinstance(e, ast.FormattedValue):
+            return ('fmt', c(e.value), e.conversion, c(e.format_spec) if e.format_spec else None)
         return ('raw', ' '.join(src(e).split()))
 
     def flat(e, kind):
